@@ -1460,7 +1460,7 @@ func (fx *FuncCtx) restoreGhostsWhen(st, pre *State, cond string, names []string
 // a value created by a library call (the source of a LimitReader, the file behind an open handle).
 // Like br_src they are not part of any function's frame.
 func logGhost(c string) bool {
-	for _, p := range []string{"G$cp_", "G$lim_", "G$mw_", "G$f_fs", "G$f_path", "G$hs_"} {
+	for _, p := range []string{"G$cp_", "G$lim_", "G$mw_", "G$f_fs", "G$f_path", "G$hs_", "G$bp_"} {
 		if strings.HasPrefix(c, p) {
 			return true
 		}
